@@ -441,6 +441,47 @@ func Gen(r *rand.Rand, o GenOpts) *World {
 			w.Workloads = append(w.Workloads, twin)
 		}
 	}
+	if len(w.Workloads) > 0 && len(w.Workloads) <= o.MaxWl && r.Intn(6) == 0 {
+		// a second version of an application: same namespace and labels, another name, its named container ports renumbered
+		base := w.Workloads[r.Intn(len(w.Workloads))]
+		v2 := base
+		v2.Name = base.Name + "v2"
+		v2.Labels = Labels{}
+		for k, v := range base.Labels {
+			v2.Labels[k] = v
+		}
+		v2.Ports = append([]CPort{}, base.Ports...)
+		renumbered := false
+		for k := range v2.Ports {
+			if v2.Ports[k].Name != "" {
+				for tries := 0; tries < 8; tries++ {
+					if p := g.pointPort(); p != v2.Ports[k].Port {
+						v2.Ports[k].Port = p
+						renumbered = true
+						break
+					}
+				}
+			}
+		}
+		if renumbered {
+			w.Workloads = append(w.Workloads, v2)
+		}
+	}
+	if len(w.Workloads) > 0 && len(w.Workloads) <= o.MaxWl && r.Intn(8) == 0 {
+		// a bare Pod that carries the name of a controller workload of its namespace (two distinct workloads: x[Pod] and x[Deployment])
+		base := w.Workloads[r.Intn(len(w.Workloads))]
+		clash := false
+		for _, x := range w.Workloads {
+			if x.NS == base.NS && x.Name == base.Name && x.Kind != base.Kind {
+				clash = true
+			}
+		}
+		if base.Expr == "controller" && !clash {
+			pod := g.Workload(len(w.Workloads))
+			pod.NS, pod.Name, pod.Kind, pod.Expr, pod.Replicas, pod.PodCount = base.NS, base.Name, "Pod", "bare", -1, 1
+			w.Workloads = append(w.Workloads, pod)
+		}
+	}
 	if o.Collide && len(w.Workloads) > 0 {
 		base := w.Workloads[r.Intn(len(w.Workloads))]
 		if base.Expr == "controller" {
